@@ -718,6 +718,22 @@ func (c *Case) RawStore(storeName string, prefix []byte) (keys, vals [][]byte) {
 	return
 }
 
+// RawDelete removes one key from a module store of the case's branch: fault injection for states that only a
+// genesis import (not a transaction) can produce, e.g. an object whose counterpart in another module is missing.
+func (c *Case) RawDelete(storeName string, key []byte) bool {
+	for _, k := range c.E.App.GetStoreKeys() {
+		if kv, ok := k.(*storetypes.KVStoreKey); ok && kv.Name() == storeName {
+			st := c.Ctx.KVStore(kv)
+			if !st.Has(key) {
+				return false
+			}
+			st.Delete(key)
+			return true
+		}
+	}
+	panic("no store " + storeName)
+}
+
 // EventAttrs returns the values of attribute `key` over all events of type `typ`.
 func EventAttrs(evs []abci.Event, typ, key string) []string {
 	var out []string
